@@ -1582,7 +1582,29 @@ MUTANTS += [
 
 # ---- benign-refactor round 6 (C03 C04 C07 C08 C10 C12 C16 C18 C19 C20; larger combined refactors) and defective variants
 MUTANTS += [
- dict(name='benign-r6-C03', prop='C03', benign=True, expect='', patch='selftest/fixes/benign-r6-C03.patch'),\n dict(name='benign-r6-C03-on-C02', prop='C02', benign=True, expect='', patch='selftest/fixes/benign-r6-C03.patch'),\n dict(name='benign-r6-C04', prop='C04', benign=True, expect='', patch='selftest/fixes/benign-r6-C04.patch'),\n dict(name='benign-r6-C04-on-C18', prop='C18', benign=True, expect='', patch='selftest/fixes/benign-r6-C04.patch'),\n dict(name='benign-r6-C07', prop='C07', benign=True, expect='', patch='selftest/fixes/benign-r6-C07.patch'),\n dict(name='benign-r6-C07-on-C10', prop='C10', benign=True, expect='', patch='selftest/fixes/benign-r6-C07.patch'),\n dict(name='benign-r6-C08', prop='C08', benign=True, expect='', patch='selftest/fixes/benign-r6-C08.patch'),\n dict(name='benign-r6-C08-on-C01', prop='C01', benign=True, expect='', patch='selftest/fixes/benign-r6-C08.patch'),\n dict(name='benign-r6-C10', prop='C10', benign=True, expect='', patch='selftest/fixes/benign-r6-C10.patch'),\n dict(name='benign-r6-C10-on-C02', prop='C02', benign=True, expect='', patch='selftest/fixes/benign-r6-C10.patch'),\n dict(name='benign-r6-C10-on-C09', prop='C09', benign=True, expect='', patch='selftest/fixes/benign-r6-C10.patch'),\n dict(name='benign-r6-C12', prop='C12', benign='noverdict', expect='', patch='selftest/fixes/benign-r6-C12.patch'),\n dict(name='benign-r6-C16', prop='C16', benign=True, expect='', patch='selftest/fixes/benign-r6-C16.patch'),\n dict(name='benign-r6-C16-on-C15', prop='C15', benign=True, expect='', patch='selftest/fixes/benign-r6-C16.patch'),\n dict(name='benign-r6-C16-on-C17', prop='C17', benign=True, expect='', patch='selftest/fixes/benign-r6-C16.patch'),\n dict(name='benign-r6-C18', prop='C18', benign=True, expect='', patch='selftest/fixes/benign-r6-C18.patch'),\n dict(name='benign-r6-C18-on-C05', prop='C05', benign=True, expect='', patch='selftest/fixes/benign-r6-C18.patch'),\n dict(name='benign-r6-C19', prop='C19', benign=True, expect='', patch='selftest/fixes/benign-r6-C19.patch'),\n dict(name='benign-r6-C19-on-C15', prop='C15', benign=True, expect='', patch='selftest/fixes/benign-r6-C19.patch'),\n dict(name='benign-r6-C20', prop='C20', benign=True, expect='', patch='selftest/fixes/benign-r6-C20.patch'),\n dict(name='benign-r6-C20-on-C01', prop='C01', benign=True, expect='', patch='selftest/fixes/benign-r6-C20.patch'),\n dict(name='benign-r6-C20-on-C08', prop='C08', benign=True, expect='', patch='selftest/fixes/benign-r6-C20.patch'),\n dict(name='benign-r6-C12-on-C11', prop='C11', benign='noverdict', expect='', patch='selftest/fixes/benign-r6-C12.patch'),
+ dict(name='benign-r6-C03', prop='C03', benign=True, expect='', patch='selftest/fixes/benign-r6-C03.patch'),
+ dict(name='benign-r6-C03-on-C02', prop='C02', benign=True, expect='', patch='selftest/fixes/benign-r6-C03.patch'),
+ dict(name='benign-r6-C04', prop='C04', benign=True, expect='', patch='selftest/fixes/benign-r6-C04.patch'),
+ dict(name='benign-r6-C04-on-C18', prop='C18', benign=True, expect='', patch='selftest/fixes/benign-r6-C04.patch'),
+ dict(name='benign-r6-C07', prop='C07', benign=True, expect='', patch='selftest/fixes/benign-r6-C07.patch'),
+ dict(name='benign-r6-C07-on-C10', prop='C10', benign=True, expect='', patch='selftest/fixes/benign-r6-C07.patch'),
+ dict(name='benign-r6-C08', prop='C08', benign=True, expect='', patch='selftest/fixes/benign-r6-C08.patch'),
+ dict(name='benign-r6-C08-on-C01', prop='C01', benign=True, expect='', patch='selftest/fixes/benign-r6-C08.patch'),
+ dict(name='benign-r6-C10', prop='C10', benign=True, expect='', patch='selftest/fixes/benign-r6-C10.patch'),
+ dict(name='benign-r6-C10-on-C02', prop='C02', benign=True, expect='', patch='selftest/fixes/benign-r6-C10.patch'),
+ dict(name='benign-r6-C10-on-C09', prop='C09', benign=True, expect='', patch='selftest/fixes/benign-r6-C10.patch'),
+ dict(name='benign-r6-C12', prop='C12', benign='noverdict', expect='', patch='selftest/fixes/benign-r6-C12.patch'),
+ dict(name='benign-r6-C16', prop='C16', benign=True, expect='', patch='selftest/fixes/benign-r6-C16.patch'),
+ dict(name='benign-r6-C16-on-C15', prop='C15', benign=True, expect='', patch='selftest/fixes/benign-r6-C16.patch'),
+ dict(name='benign-r6-C16-on-C17', prop='C17', benign=True, expect='', patch='selftest/fixes/benign-r6-C16.patch'),
+ dict(name='benign-r6-C18', prop='C18', benign=True, expect='', patch='selftest/fixes/benign-r6-C18.patch'),
+ dict(name='benign-r6-C18-on-C05', prop='C05', benign=True, expect='', patch='selftest/fixes/benign-r6-C18.patch'),
+ dict(name='benign-r6-C19', prop='C19', benign=True, expect='', patch='selftest/fixes/benign-r6-C19.patch'),
+ dict(name='benign-r6-C19-on-C15', prop='C15', benign=True, expect='', patch='selftest/fixes/benign-r6-C19.patch'),
+ dict(name='benign-r6-C20', prop='C20', benign=True, expect='', patch='selftest/fixes/benign-r6-C20.patch'),
+ dict(name='benign-r6-C20-on-C01', prop='C01', benign=True, expect='', patch='selftest/fixes/benign-r6-C20.patch'),
+ dict(name='benign-r6-C20-on-C08', prop='C08', benign=True, expect='', patch='selftest/fixes/benign-r6-C20.patch'),
+ dict(name='benign-r6-C12-on-C11', prop='C11', benign='noverdict', expect='', patch='selftest/fixes/benign-r6-C12.patch'),
  dict(name='benign-r6-C12-on-C14', prop='C14', benign=True, expect='', patch='selftest/fixes/benign-r6-C12.patch'),
  dict(name='benign-r6-C20-prepared-helper-no-increment', prop='C08', expect='VIOLATION property=C08', patch='selftest/fixes/benign-r6-C20.patch',
       edits=[('src/bls12_381/pairing.cpp', 'const MillerTriple& line = g2.coeffs[coeff_idx++];', 'const MillerTriple& line = g2.coeffs[coeff_idx];')]),
